@@ -100,7 +100,14 @@ def execute(ctx, text, rname, opts, form, source, depth_known=None, tmpdir=None)
     try:
         try:
             src, fh = supply(text, form, tmpdir)
-            out = mt.render(src, rname, **opts)
+            if not opts and ctx.case_index % 5 == 0:
+                import mistletoe
+                try:
+                    out = mistletoe.markdown(src, mt.renderer_class(rname))     # the convenience entry point
+                finally:
+                    mt.reset()
+            else:
+                out = mt.render(src, rname, **opts)
         finally:
             signal.setitimer(signal.ITIMER_VIRTUAL, 0)
             if fh is not None:
